@@ -1128,7 +1128,7 @@ func TestVerifC20(t *testing.T) {
 	total := 0
 	budget := VEnvInt("VERIF_C20_OPS", 45000)
 	if VThorough() {
-		budget = VEnvInt("VERIF_C20_OPS", 900000)
+		budget = VEnvInt("VERIF_C20_OPS", 300000)
 	}
 
 	// (1) the regression schedule of fix 4876faa, verbatim
@@ -1139,9 +1139,9 @@ func TestVerifC20(t *testing.T) {
 	// (2) systematic single injections
 	kinds := []string{"r", "s"}
 	gaps := []int{0, 1, 2, 3, 5}
-	stride := 1
+	stride := 3
 	if !VThorough() {
-		stride = 7
+		stride = 11
 	}
 	cnt := 0
 	for wi := range regions.worker {
